@@ -4,7 +4,9 @@ const v2pkg = "app/core/hydra/swamp/chronicler/v2"
 
 var Checks = []CheckDef{
 	{
-		ID: "C01", Title: "Storage log replays to the last-writer-wins state",
+		Claim:   "bounded symbolic execution of the real v2 codec, write buffer, file writer and reader: every entry (symbolic opcode/key/payload bytes up to the stated lengths) round-trips through Serialize/Deserialize, every strict prefix of an encoding is rejected, every history of up to nOps WriteEntry/WriteEntries/Flush/Sync/Close+reopen steps with a symbolic block size (the solver decides where flushes fall) and symbolic key bytes (the solver decides aliasing) reloads to the last-writer-wins fold with the stored name and header counters, and keys at the uint16 boundary (0, 65535, 65536, 65537, 70000 bytes) are either rejected or read back identically",
+		Trusted: "Snappy = tagged identity, CRC32 = uninterpreted function, os = in-memory FS model (all validated by native replay of sampled paths against the real build); histories longer than nOps are outside the claim",
+		ID:      "C01", Title: "Storage log replays to the last-writer-wins state",
 		Harnesses: []HarnessDef{
 			{Pkg: v2pkg, Func: "VerifC01Codec", Quick: map[string]int{"maxKey": 3, "maxData": 3}, Thorough: map[string]int{"maxKey": 6, "maxData": 6}, Covers: []string{"end"}},
 			{Pkg: v2pkg, Func: "VerifC01Boundary", Quick: map[string]int{"blockSize": 64}, Thorough: map[string]int{"blockSize": 64}, Covers: []string{"end"}},
@@ -15,26 +17,32 @@ var Checks = []CheckDef{
 		Outside:     []string{"histories longer than nOps", "payloads >= 4 GiB", "blocks with more than 65535 entries (needs a block size above ~512 KiB)"},
 	},
 	{
-		ID: "C02", Title: "Crash at any point never loses durable data or the swamp",
+		Claim:   "bounded symbolic execution of the real writer/reader over the engine's file-operation log: for every writer history up to nOps steps (symbolic block size and payloads) and EVERY crash point after the last Sync - loss of any unsynced suffix of operations plus the in-flight write torn at every byte offset that changes the file - the reload succeeds, equals the fold at a flush boundary not older than the last Sync, and a write+sync after recovery is readable together with the recovered records",
+		Trusted: "crash model = prefix of the op log + torn next write, Rename atomic, no reordering of unsynced writes; counter-examples are rebuilt natively from the real writer's own operation log (os import swapped for a logging shim in the replay build)",
+		ID:      "C02", Title: "Crash at any point never loses durable data or the swamp",
 		Harnesses: []HarnessDef{
-			{Pkg: v2pkg, Func: "VerifC02Crash", Quick: map[string]int{"nOps": 2}, Thorough: map[string]int{"nOps": 3}, Covers: []string{"end"}},
+			{Pkg: v2pkg, Func: "VerifC02Crash", Quick: map[string]int{"nOps": 2}, Thorough: map[string]int{"nOps": 3}, Covers: []string{"end"}, OSSwap: []string{v2pkg}},
 		},
 		Assumptions: []string{"crash model: every file operation up to a crash point is applied, operations after the last Sync may be lost as a suffix, the in-flight write is torn at a symbolic byte offset; Rename atomic", "no reordering of unsynced writes among themselves"},
 		Stubs:       []string{"os.* = in-memory FS model with operation log", "snappy = tagged identity", "crc32 = UF"},
 		Outside:     []string{"histories longer than nOps", "sector-level reordering below the sync barrier", "directory entry durability"},
 	},
 	{
-		ID: "C03", Title: "Compaction never changes the stored state",
+		Claim:   "bounded symbolic execution of all v2 compaction entry points (Compact, CompactIfNeeded, ForceCompact, CompactFromIndex, cleanup+Compact as the chronicler does) on fragmented files from symbolic histories, with every kind of leftover temp file (absent, valid stale file, stale file with torn tail, arbitrary bytes) and every map iteration order: LoadIndex and the name are unchanged and no temp remains; every crash point inside a compaction (temp create/write/rename) reloads to exactly the pre-compaction state",
+		Trusted: "map-order nondeterminism explored as a decision (<= 3 live keys); crash model as C02; chronicler-level thresholds and the CLI wrapper reach the same v2 entry points",
+		ID:      "C03", Title: "Compaction never changes the stored state",
 		Harnesses: []HarnessDef{
 			{Pkg: v2pkg, Func: "VerifC03Compact", Quick: map[string]int{"nOps": 3}, Thorough: map[string]int{"nOps": 4}, Covers: []string{"end"}, MapOrder: true},
-			{Pkg: v2pkg, Func: "VerifC03Crash", Quick: map[string]int{"nOps": 3}, Thorough: map[string]int{"nOps": 4}, Covers: []string{"end"}, NoReplay: true},
+			{Pkg: v2pkg, Func: "VerifC03Crash", Quick: map[string]int{"nOps": 3}, Thorough: map[string]int{"nOps": 4}, Covers: []string{"end"}, OSSwap: []string{v2pkg}},
 		},
 		Assumptions: []string{"map iteration order is nondeterministic (every permutation up to 3 live keys explored)", "crash model as C02"},
 		Stubs:       []string{"os.* = in-memory FS model", "snappy = tagged identity", "crc32 = UF"},
 		Outside:     []string{"chronicler-level triggers (maybeCompactInline thresholds) and the CLI wrapper are covered only through the v2 entry points they call"},
 	},
 	{
-		ID: "C04", Title: "Corrupt storage files are detected, never misread or crash the server",
+		Claim:   "bounded symbolic execution of the real decoders on (a) arbitrary files: symbolic header fields, symbolic magic, every body length up to maxBody with all bytes symbolic - no panic, termination within the loop bounds, every allocation bounded by max(file size, 65535 entries); (b) writer-produced files with one symbolic mutation (truncate anywhere, overwrite any byte with any other value, overwrite a block-header size field): the load reports the damage or returns exactly the records of a prefix of the original blocks",
+		Trusted: "CRC32 = uninterpreted function with the injectivity assumption for compared payloads (2^-32 collisions outside the claim); Snappy decode of foreign bytes = error or arbitrary output",
+		ID:      "C04", Title: "Corrupt storage files are detected, never misread or crash the server",
 		Harnesses: []HarnessDef{
 			{Pkg: v2pkg, Func: "VerifC04Arbitrary", Quick: map[string]int{"maxBody": 24, "allocBound": 65535}, Thorough: map[string]int{"maxBody": 30, "allocBound": 65535}, Covers: []string{"end"}, NoReplay: true},
 			{Pkg: v2pkg, Func: "VerifC04Damaged", Quick: map[string]int{"nEntries": 2, "crcInjective": 1, "allocBound": 65535}, Thorough: map[string]int{"nEntries": 3, "crcInjective": 1, "allocBound": 65535}, Covers: []string{"end"}},
@@ -44,7 +52,9 @@ var Checks = []CheckDef{
 		Outside:     []string{"files larger than 64+2+maxBody bytes", "adversarial CRC collisions", "Snappy's own allocation from its length prefix"},
 	},
 	{
-		ID: "C25", Title: "Disk write failures never corrupt durable data",
+		Claim:   "bounded symbolic execution of the real writer with the disk becoming full at every byte offset up to maxRoom behind a durable entry (short write + ENOSPC from the FS model), the fault clearing, and later writes: the reload succeeds, the durable entry is intact, every entry acknowledged before or after the fault is present",
+		Trusted: "fault model = file cannot grow beyond a limit (natively replayed with RLIMIT_FSIZE); Sync/Rename failures and chronicler-level error handling are outside",
+		ID:      "C25", Title: "Disk write failures never corrupt durable data",
 		Harnesses: []HarnessDef{
 			{Pkg: v2pkg, Func: "VerifC25DiskFull", Quick: map[string]int{"maxRoom": 24, "blockSize": 16}, Thorough: map[string]int{"maxRoom": 40, "blockSize": 16}, Covers: []string{"end"}},
 		},
@@ -53,7 +63,9 @@ var Checks = []CheckDef{
 		Outside:     []string{"Sync/Rename failures", "double faults", "chronicler-level error handling (errors are logged and the treasure skipped)"},
 	},
 	{
-		ID: "C29", Title: "Fast swamp-name discovery agrees with the stored name",
+		Claim:   "bounded symbolic execution of writer + ReadSwampName for symbolic names up to maxName bytes in the V3 layout, after a second append session, and in the legacy V2 layout built with the real header/entry encoders (name in a metadata entry): the fast lookup returns exactly the written name",
+		Trusted: "explorer directory walk/worker pool is outside; names above 65535 bytes are outside",
+		ID:      "C29", Title: "Fast swamp-name discovery agrees with the stored name",
 		Harnesses: []HarnessDef{
 			{Pkg: v2pkg, Func: "VerifC29Name", Quick: map[string]int{"maxName": 3}, Thorough: map[string]int{"maxName": 5}, Covers: []string{"end"}},
 		},
@@ -62,10 +74,13 @@ var Checks = []CheckDef{
 		Outside:     []string{"explorer directory walk / worker pool", "names longer than 65535 bytes"},
 	},
 	{
-		ID: "C20", Title: "Swamp addressing is deterministic, in range and SDK/server-consistent",
+		Claim:   "bounded symbolic execution of the server and SDK name packages: island number in 1..N for every 16-bit N (hash = uninterpreted function), SDK == server, a second query with a different N equals a fresh object's answer, hashed directory path computed without panic for every depth/maxFoldersPerLevel/hash digit count in range, canonical name injective and Load(Get()) the identity over symbolic part bytes (empty parts included)",
+		Trusted: "xxhash = uninterpreted function (collisions outside the claim); fmt %x modelled; parts up to partLen bytes",
+		ID:      "C20", Title: "Swamp addressing is deterministic, in range and SDK/server-consistent",
 		Harnesses: []HarnessDef{
 			{Pkg: "app/name", Func: "VerifC20Island", Quick: map[string]int{"partLen": 2}, Thorough: map[string]int{"partLen": 3}, Covers: []string{"end"}},
 			{Pkg: "app/name", Func: "VerifC20Path", Quick: map[string]int{"maxDepth": 4}, Thorough: map[string]int{"maxDepth": 9}, Covers: []string{"end"}},
+			{Pkg: "app/name", Func: "VerifC20InjectEmpty", Quick: map[string]int{"partLen": 1}, Thorough: map[string]int{"partLen": 2}, Covers: []string{"end"}},
 			{Pkg: "app/name", Func: "VerifC20Inject", Quick: map[string]int{"partLen": 2}, Thorough: map[string]int{"partLen": 3}, Covers: []string{"end"}},
 		},
 		Assumptions: []string{"xxhash.Sum64 is an uninterpreted function per input length (collisions are outside the claim)", "N >= 1", "path hashes >= 2^48 (13..16 hex digits)", "maxFoldersPerLevel in 1..2^20"},
@@ -73,7 +88,9 @@ var Checks = []CheckDef{
 		Outside:     []string{"hash collisions", "names longer than the stated part length", "island counts above 65535 on the server API (uint16)"},
 	},
 	{
-		ID: "C15", Title: "Record guard gives exclusive, arrival-ordered access",
+		Claim:   "one-step inductive obligation over ANY guard state of the shape histories produce (queue of consecutive ids ending at the counter, all symbolic): acquire (waiting/non-waiting) and release with an arbitrary id keep the shape, hand out only fresh ids (counter monotonic), release of a non-head id is a no-op; plus preemption-bounded schedules of 3 threads with a duplicate (stale) release: one holder at a time, nobody blocked forever",
+		Trusted: "sync.Cond/RWMutex/atomics are scheduler models (Broadcast wakes only parked waiters); preemption bound in evidence.bounds",
+		ID:      "C15", Title: "Record guard gives exclusive, arrival-ordered access",
 		Harnesses: []HarnessDef{
 			{Pkg: "app/core/hydra/swamp/treasure/guard", Func: "VerifC15Step", Quick: map[string]int{"maxQueue": 4}, Thorough: map[string]int{"maxQueue": 6}, Covers: []string{"end"}},
 			{Pkg: "app/core/hydra/swamp/treasure/guard", Func: "VerifC15Sched", Quick: map[string]int{"threads": 3}, Thorough: map[string]int{"threads": 3}, Preempt: [2]int{2, 3}, Covers: []string{"end"}, NoReplay: true},
@@ -83,7 +100,9 @@ var Checks = []CheckDef{
 		Outside:     []string{"more than 3 concurrent holders/waiters in the scheduled harness", "schedules needing more preemptions than the bound"},
 	},
 	{
-		ID: "C17", Title: "Lifecycle waits always terminate",
+		Claim:   "every interleaving (within the preemption bound) of a waiter in WaitForActiveVigilsClosed with up to maxInFlight Begin/CeaseVigil operations on the real vigil: no reachable state has the waiter parked with no operation left to wake it (deadlock detector), and the waiter only returns at count zero",
+		Trusted: "sync.Cond model: Broadcast moves only waiters that are already parked; Destroy/WaitForGracefulClose chains at swamp level are outside this check",
+		ID:      "C17", Title: "Lifecycle waits always terminate",
 		Harnesses: []HarnessDef{
 			{Pkg: "app/core/hydra/swamp/vigil", Func: "VerifC17Vigil", Quick: map[string]int{"maxInFlight": 2}, Thorough: map[string]int{"maxInFlight": 3}, Preempt: [2]int{2, 3}, Covers: []string{"end"}, NoReplay: true},
 		},
@@ -92,7 +111,9 @@ var Checks = []CheckDef{
 		Outside:     []string{"more in-flight operations than the bound", "Destroy/WaitForGracefulClose chains (swamp level)"},
 	},
 	{
-		ID: "C14", Title: "Business lock: exclusive, FIFO, TTL-released, deadlock-free",
+		Claim:   "inductive step over arbitrary lock-queue states (symbolic ids, <= maxQueue callers) for enqueue/remove, plus preemption-bounded exploration of the real Lock/Unlock with TTL timers firing at arbitrary points, cancellations, stale and foreign unlocks: at most one holder, FIFO grant order, foreign unlock has no effect, every live waiter eventually finishes",
+		Trusted: "TTL timers and context deadlines are environment events that may fire at any scheduling point; channels/sync.Map/mutexes are scheduler models; preemption bound and caller count in evidence.bounds",
+		ID:      "C14", Title: "Business lock: exclusive, FIFO, TTL-released, deadlock-free",
 		Harnesses: []HarnessDef{
 			{Pkg: "app/core/hydra/lock", Func: "VerifC14Queue", Quick: map[string]int{"maxQueue": 4}, Thorough: map[string]int{"maxQueue": 5}, Covers: []string{"end"}},
 			{Pkg: "app/core/hydra/lock", Func: "VerifC14Lock", Quick: map[string]int{"callers": 2}, Thorough: map[string]int{"callers": 2}, Preempt: [2]int{1, 2}, Covers: []string{"end"}, NoReplay: true},
@@ -103,7 +124,9 @@ var Checks = []CheckDef{
 		Outside:     []string{"more than 3 callers", "gateway-level TTL floor arithmetic"},
 	},
 	{
-		ID: "C28", Title: "Lock and guard bookkeeping does not grow without bound",
+		Claim:   "preemption-bounded exploration of lock/unlock/TTL-expiry sequences over up to `keys` keys on the real lock package; at quiescence with no holder and no waiter the per-key queue map must be empty",
+		Trusted: "sync.Map = association-list model; TTL timers are environment events",
+		ID:      "C28", Title: "Lock and guard bookkeeping does not grow without bound",
 		Harnesses: []HarnessDef{
 			{Pkg: "app/core/hydra/lock", Func: "VerifC28Lock", Quick: map[string]int{"keys": 2}, Thorough: map[string]int{"keys": 3}, Preempt: [2]int{1, 2}, NoReplay: true},
 		},
